@@ -1,6 +1,142 @@
-/-! Driver entry for property C01 (stub: not implemented yet). -/
-namespace HeartwoodModel.Driver.C01
+import HeartwoodModel.Model.Fetch
+import HeartwoodModel.Driver.Util
+/-! Driver entry for C01 (and, through `Driver/C02.lean`, C02): one fetch scenario per case.
 
-def run (_args : List String) : String := "unimplemented"
+Case tokens: the scenario script (ignored here, it is what the harness executes), a `|` token, then the
+abstract world extracted by the harness:
+
+`nid=<name> nsig=<name> rad=<names> ldoc=<delegates>/<threshold>|- adoc=… local=<key> clone=<0|1>
+ scope=all|f:<keys> blocked=<keys> refsat=none|<key>:<oid>,… L=<key>:<name>:<oid>,… A=…
+ B=<key>@<oid>:x | <key>@<oid>:<sigOk>:<a|s|o>:<name>><oid>+…;…  ANC=<old>><new>:<E|A|B|D>,…`
+
+Output: `success r=<validated remotes> L=<refdb>` | `failed L=…` | `error L=…` | `panic L=…`, the refdb
+sorted by `(key, name)`. -/
+namespace HeartwoodModel.Driver.C01
+open HeartwoodModel.Fetch HeartwoodModel.Driver.Util
+
+def kv? (key : String) (tok : String) : Option String :=
+  let p := key ++ "="
+  if tok.startsWith p then some ((tok.drop p.length).toString) else none
+
+def doc? (s : String) : Option (Option Doc) :=
+  if s == "-" then some none else
+  match splitOn s '/' with
+  | [ds, t] => do
+    let ds ← nats? ds
+    let t ← nat? t
+    if t == 0 then none else some (some { delegates := ds.eraseDups, threshold := t })
+  | _ => none
+
+def list? {α : Type} (s : String) (sep : Char) (f : String → Option α) : Option (List α) :=
+  if s == "-" || s.isEmpty then some [] else (splitOn s sep).mapM f
+
+def refdb? (s : String) : Option Refdb := do
+  let es ← list? s ',' (fun e =>
+    match splitOn e ':' with
+    | [k, n, o] => do some (((← nat? k), (← nat? n)), (← nat? o))
+    | _ => none)
+  -- a refdb has at most one entry per reference
+  if (es.map (·.1)).eraseDups.length == es.length then some es else none
+
+def blobEntry? (s : String) : Option ((Key × Oid) × Option Blob) :=
+  match splitOn s ':' with
+  | [ko, "x"] =>
+    match splitOn ko '@' with
+    | [k, o] => do some (((← nat? k), (← nat? o)), none)
+    | _ => none
+  | [ko, sig, root, refs] =>
+    match splitOn ko '@' with
+    | [k, o] => do
+      let sigOk ← bool? sig
+      let idRoot ← (if root == "a" then some IdRoot.absent else if root == "s" then some IdRoot.same
+                    else if root == "o" then some IdRoot.other else none)
+      let refs ← list? refs '+' (fun e =>
+        match splitOn e '>' with
+        | [n, t] => do some ((← nat? n), (← nat? t))
+        | _ => none)
+      some (((← nat? k), (← nat? o)), some { refs, sigOk, idRoot })
+    | _ => none
+  | _ => none
+
+def anc? (s : String) : Option ((Oid × Oid) × Anc) :=
+  match splitOn s ':' with
+  | [p, c] =>
+    match splitOn p '>' with
+    | [a, b] => do
+      let c ← (if c == "E" then some Anc.equal else if c == "A" then some Anc.ahead
+               else if c == "B" then some Anc.behind else if c == "D" then some Anc.diverged else none)
+      some (((← nat? a), (← nat? b)), c)
+    | _ => none
+  | _ => none
+
+def assoc {α β : Type} [BEq α] (tbl : List (α × β)) (a : α) : Option β :=
+  (tbl.find? (fun e => e.1 == a)).map (·.2)
+
+/-- Insertion sort of refdb entries by `(key, name)`. -/
+def insertEntry (e : Ref × Oid) : List (Ref × Oid) → List (Ref × Oid)
+  | [] => [e]
+  | x :: xs =>
+    if e.1.1 < x.1.1 || (e.1.1 == x.1.1 && e.1.2 ≤ x.1.2) then e :: x :: xs else x :: insertEntry e xs
+
+def showRefdb (db : Refdb) : String :=
+  let sorted := db.foldl (fun acc e => insertEntry e acc) []
+  if sorted.isEmpty then "-" else
+  joinWith "," (sorted.map (fun e => s!"{e.1.1}:{e.1.2}:{e.2}"))
+
+def insertNat (n : Nat) : List Nat → List Nat
+  | [] => [n]
+  | x :: xs => if n ≤ x then n :: x :: xs else x :: insertNat n xs
+
+def showOutcome (o : Outcome) : String :=
+  match o with
+  | .success rs => "success r=" ++ showNats (rs.foldl (fun acc k => insertNat k acc) [])
+  | .failed => "failed"
+  | .error => "error"
+  | .panic => "panic"
+
+def runWorld : List String → String
+  | [nid, nsig, rad, ldoc, adoc, loc, clone, scope, blocked, refsat, l, a, b, anc] =>
+    let r : Option String := do
+      let nId ← nat? (← kv? "nid" nid)
+      let nSig ← nat? (← kv? "nsig" nsig)
+      let rad ← nats? (← kv? "rad" rad)
+      let localDoc ← doc? (← kv? "ldoc" ldoc)
+      let advDoc ← doc? (← kv? "adoc" adoc)
+      let localKey ← nat? (← kv? "local" loc)
+      let isClone ← bool? (← kv? "clone" clone)
+      let scopeS ← kv? "scope" scope
+      let scope ← (if scopeS == "all" then some none
+                   else if scopeS.startsWith "f:" then (nats? ((scopeS.drop 2).toString)).map some else none)
+      let blocked ← nats? (← kv? "blocked" blocked)
+      let refsatS ← kv? "refsat" refsat
+      let refsAt ← (if refsatS == "none" then some none else
+        (list? refsatS ',' (fun e =>
+          match splitOn e ':' with
+          | [k, o] => do some ((← nat? k), (← nat? o))
+          | _ => none)).map some)
+      let L ← refdb? (← kv? "L" l)
+      let A ← refdb? (← kv? "A" a)
+      let blobs ← list? (← kv? "B" b) ';' blobEntry?
+      let ancs ← list? (← kv? "ANC" anc) ',' anc?
+      if nId == nSig || !rad.contains nId || !rad.contains nSig then none else
+      let env : Env :=
+        { nId, nSig, isRad := fun n => rad.contains n,
+          blob := fun k o => (assoc blobs (k, o)).bind id,
+          anc := fun x y => assoc ancs (x, y) }
+      let cfg : Config := { localDoc, advDoc, localKey, isClone, scope, blocked, refsAt }
+      let (out, db) := fetch env cfg L A
+      some (showOutcome out ++ " L=" ++ showRefdb db)
+    r.getD "bad-op"
+  | _ => "bad-op"
+
+/-- Drop the scenario script: everything up to and including the `|` token. -/
+def afterBar : List String → Option (List String)
+  | [] => none
+  | t :: ts => if t == "|" then some ts else afterBar ts
+
+def run (args : List String) : String :=
+  match afterBar args with
+  | some w => runWorld w
+  | none => "bad-op"
 
 end HeartwoodModel.Driver.C01
